@@ -5,6 +5,7 @@ import (
 	"os"
 	"strconv"
 	"testing"
+	"time"
 )
 
 // TestProbe_C07 repeats one case (C07_PROBE_CASE = JSON file with a "case" member, or a built-in
@@ -34,7 +35,14 @@ func TestProbe_C07(t *testing.T) {
 	}
 	fails := map[string]int{}
 	over := 0
+	secs, _ := strconv.Atoi(os.Getenv("C07_PROBE_SECS"))
+	start := time.Now()
+	runs := 0
 	for i := 0; i < n; i++ {
+		if secs > 0 && time.Since(start) > time.Duration(secs)*time.Second {
+			break
+		}
+		runs++
 		o := runC07(c)
 		if o.Fail != "" {
 			fails[o.Fail]++
@@ -48,5 +56,5 @@ func TestProbe_C07(t *testing.T) {
 		t.Logf("%d x %s", v, k)
 		total += v
 	}
-	t.Logf("PROBE: %d runs, %d violations, %d overloaded", n, total, over)
+	t.Logf("PROBE: %d runs, %d violations, %d overloaded", runs, total, over)
 }
